@@ -2,7 +2,10 @@
 # every stored seeded change against the quick check of its property (run from a snapshot: vp run -- ./tools_recheck_seeds.sh)
 here=$(pwd)
 (cd lean && lake build Treepath tpdriver >/dev/null 2>&1)
+# SHARD=k/N: only every N-th entry, starting at k (several shards can run side by side)
+n=0; sk=${SHARD%%/*}; sn=${SHARD##*/}
 for d in seeded/C*-* seeded/reverts/*.diff; do
+  n=$((n+1)); [ -n "$SHARD" ] && [ $((n % sn)) -ne $((sk % sn)) ] && continue
   if [ -d "$d" ]; then id=$(basename $d); p=${id%%-*}; patch="$here/$d/patch.diff"
   else id=$(basename $d .diff); patch="$here/$d"
     case "$id" in F1-*) p=C07;; F2-*) p=C13;; F3-*) p=C08;; F4-*) p=C14;; F5-*) p=C18;; F6-*) p=C16;; *) continue;; esac; fi
